@@ -11,19 +11,21 @@ from vlib.drive import Q, quiet
 PROPERTY = "C15"
 RULE = ("weights: 1-3 dimensions, each with its own distribution (Uniform(a,b), Triangle(a,mid,b), Normal(mu,sigma) on "
         "(-inf,inf) or truncated to mu+-k*sigma; the families usable offline) set up through UncertaintyQuantification as "
-        "callers do, one GlobalTrapezoidalGridWeighted (boundary on/off; off whenever a Normal is present), per dimension "
-        "either a refinement tree built with the library's own get_mid_point (random / leftmost / rightmost / targeted "
-        "splits, depth <= 18) or an arbitrary strictly ascending grid (positions or quantiles, optionally clustered); all "
-        "dimensions are handed to ONE set_grid call. Non-trivial = some dimension has a non-Uniform distribution and a "
-        "non-equidistant grid with >= 6 points. midpoint: one interval (the support, a tree path of L/R choices of depth "
-        "<= 20, or two arbitrary quantiles) of a 1-2 dimensional set-up, midpoint taken in the last dimension; non-trivial "
-        "= non-Uniform family, primary (ppf) branch taken, P(interval) >= 1e-6. moments: a vector model (1-2 nowhere-exact "
-        "base components, 1-3 affine images c*f+e, the constants 1 and K) is integrated by "
-        "SpatiallyAdaptiveSingleDimensions2 on the weighted grid (d 1-3, versions 6/2/3/7/8, rebalancing, volume weighting "
-        "on/off) driven by a scripted decision tape for up to 8 steps; the identities are evaluated after EVERY "
-        "evaluate_operation, and once more for the nodes-and-weights path (use_combiinstance_solution=False) at the end. "
-        "Non-trivial = >=1 step refined a strict subset of the intervals, some dimension is non-Uniform and has >= 6 "
-        "points. Distinct = distinct case dict.")
+        "callers do (list of infos, or the string short form), one GlobalTrapezoidalGridWeighted (boundary on/off; off "
+        "whenever a Normal is present), per dimension either a refinement tree built with the library's own get_mid_point "
+        "(random / leftmost / rightmost / targeted splits, depth <= 18; every midpoint is judged) or an arbitrary strictly "
+        "ascending grid (positions or quantiles, optionally clustered); all dimensions are handed to ONE set_grid call, "
+        "first for a coarser grid of the same trees (so that cached per-interval moments are in play), then for the full "
+        "grid. Non-trivial = some dimension has a non-Uniform distribution and a non-equidistant grid with >= 6 points. "
+        "midpoint: one interval (the support, a tree path of L/R choices of depth <= 20, or two arbitrary quantiles) of a "
+        "1-2 dimensional set-up, midpoint taken in a drawn dimension; non-trivial = non-Uniform family, primary (ppf) "
+        "branch taken, P(interval) >= 1e-6. moments: a vector model (1-2 nowhere-exact base components, 1-3 affine images "
+        "c*f+e, the constants 1 and K) is integrated by SpatiallyAdaptiveSingleDimensions2 on the weighted grid (d 1-3, "
+        "lmin 1-2, versions 6/2/3/7/8, rebalancing, volume weighting on/off) driven by a scripted decision tape for up to "
+        "8 steps; the moment identities AND the weight clauses for the 1D grids of the component grid evaluated last are "
+        "evaluated after EVERY evaluate_operation, and the identities once more for the nodes-and-weights path "
+        "(use_combiinstance_solution=False) at the end. Non-trivial = >=1 step refined a strict subset of the intervals "
+        "and some non-Uniform dimension has >= 6 points. Distinct = distinct case dict.")
 ASSUMPTIONS = [
     "distribution families: Uniform, Triangle (mode strictly inside, 2%..98% of the interval), Normal; chaospy 4.3.21 in "
     "/venv cannot construct Laplace(mu=, scale=) (TypeError), so Laplace is unreachable offline",
@@ -32,15 +34,25 @@ ASSUMPTIONS = [
     "renormalised there; with boundary points its mass is cdf(b)-cdf(a) < 1 by construction; UQ/TestsUQ.py does the same)",
     "grids have >= 2 points with boundary and >= 3 points without (compute_weights asserts this), strictly ascending, "
     "neighbouring points at least 1e-9*(b-a) apart",
-    "|sum(w)-1| <= 1e-6 (1e-4 when a Normal is involved: the library's own warning threshold, DESIGN 3.6)",
+    "|sum(w)-1| <= 1e-6 (1e-4 when a Normal is involved: the library's own warning threshold, DESIGN 3.6); seen: 7e-16",
+    "Uniform: |w - trapezoid/(b-a)| <= 1e-12 + 200*eps*max|x|/min h (the library differences cdf values, so the rounding "
+    "of a weight grows with |x|/h; seen: <= 0.4% of this bound)",
     "affine identities are asserted in the algebraic form the code can satisfy: E[cf+e]=cE[f]+e*S and "
-    "Var[cf+e]=c^2Var[f]+(2ceE[f]+e^2 S)(1-S), S = E[1] on the same grid (S=1 up to 1e-13 on the unchanged tree)",
+    "Var[cf+e]=c^2Var[f]+(2ceE[f]+e^2 S)(1-S), S = E[1] on the same grid (|S-1| <= 1.3e-13 on the unchanged tree), "
+    "tolerance 1e-9*scale (seen 2e-13)",
+    "constant model: |E[K]-K*S| <= 1e-10|K|, Var[K] <= 1e-10 K^2 + K^2|S||1-S| (the stated 1e-12 is only 2x above the "
+    "rounding 5e-13 seen for combinations of ~100 component grids; 1e-10 keeps the 100x margin)",
     "modified_basis=True is not generated (documented in compute_weights as Uniform-only; its extrapolation weights are "
     "not trapezoidal weights)",
-    "equal-probability clause only on the primary (ppf) branch; fallback branches are counted and must still be strictly "
-    "interior",
+    "equal-probability clause: |P(left)-P(right)| <= 1e-6 P(interval) + 1e-13 on the primary (ppf) branch (seen 2e-9 "
+    "relative); a fallback branch is accepted (strict interiority only) where P(interval) < 1e-9 or the interval is "
+    "narrower than 1e-9|x|, i.e. where the halving point cannot be resolved; elsewhere taking the fallback is a violation",
+    "the nodes-and-weights path (use_combiinstance_solution=False, third cell of the UQ tutorial) must satisfy the same "
+    "identities and agree with the combined-moment path to 1e-9 relative",
     "offset/width ratios |a|/(b-a) <= 20 in the regular classes; a separate low-frequency 'far-offset' Triangle class "
     "(ratio 200..2000) exists because the first-moment quadrature loses accuracy there (F-C15b)",
+    "same distribution info in two dimensions with different intervals is generated at low frequency only (F-C15a); a "
+    "dimension hit by it is dropped from the remaining clauses of that case",
 ]
 
 A_CHOICES = [0.0, -1.0, 2.0, 0.3, -3.5, 10.0]
@@ -468,7 +480,7 @@ def run_midpoint(case):
     sub = "midpoint"
     specs = case["dims"]
     op, grid, refs, a, b = lib_setup(specs, case["boundary"])
-    d = len(specs) - 1
+    d = case.get("d", len(specs) - 1) % len(specs)
     ref = refs[d]
     why = shared_wrong(op, refs, d)
     if why:
@@ -729,7 +741,7 @@ def midpoint_strategy(tier):
             if abs(q[0] - q[1]) < 1e-6:
                 q = [0.25, 0.75]
             iv = dict(kind="quantiles", q=q)
-        return dict(dims=specs, boundary=boundary, interval=iv)
+        return dict(dims=specs, boundary=boundary, interval=iv, d=draw(st.integers(0, len(specs) - 1)))
     return s()
 
 
@@ -822,7 +834,7 @@ def selftest():
 
 
 SUBS = [
-    Sub("weights", weights_strategy, run_weights, dict(quick=2400, thorough=40000), budget_s=dict(quick=18, thorough=200)),
+    Sub("weights", weights_strategy, run_weights, dict(quick=1600, thorough=30000), budget_s=dict(quick=20, thorough=200)),
     Sub("midpoint", midpoint_strategy, run_midpoint, dict(quick=2400, thorough=40000), budget_s=dict(quick=10, thorough=100)),
     Sub("moments", moments_strategy, run_moments, dict(quick=480, thorough=8000), budget_s=dict(quick=28, thorough=300)),
 ]
